@@ -22,7 +22,7 @@ ASSUMPTIONS = [
 ]
 BUDGET = {"quick": 3000, "thorough": 100000}
 TIME_CAP = {"quick": 75, "thorough": 1500}
-PROFILE = {"p_programs": 0.2, "p_timed": 1.0, "max_timed_motifs": 2, "p_junction": 0.3, "max_ord": 3, "p_function": 0.25, "extreme": 0.1, "p_timed_yfactor": 0.35, "min_steps": 6, "max_steps": 40, "p_transfer": 0.6}
+PROFILE = {"p_programs": 0.2, "p_second_type": 0.15, "p_timed": 1.0, "max_timed_motifs": 2, "p_junction": 0.3, "max_ord": 3, "p_function": 0.25, "extreme": 0.1, "p_timed_yfactor": 0.35, "min_steps": 6, "max_steps": 40, "p_transfer": 0.6}
 
 
 def strategy(tier):
